@@ -9,6 +9,7 @@ Decides (decode-level lockstep and structural parity; not equality of results fo
   4 EXHAUSTIVE every instruction kind used by the Rust table has a dedicated arm in execute_with; every arm moves PC itself or through a
               helper that does
   5 SIBLING   stack frame widths of CALL/RET/RETF/IR/RETI and HALT/OFF/RESET register effects (shared with C05, C12, C04.6)
+  6 FEATURES  INC/DEC effective width per register; carry-in / direction / BCD / subtract of ADCL/SBCL/DADL/DSBL; target formulas at a page edge
 Flags/results parity of the hand-written Rust evaluator with the Python lift for all operand values is declined (no sound static
 argument in reach without compiling the crate)."""
 from __future__ import annotations
